@@ -17,6 +17,8 @@ theorem drop_error_data_matches (e : ErrVal) :
   cases hv : Jrpc.Json.valid e.data <;> by_cases hl : e.data.length = 0 <;> simp [hl]
 
 /-- and only then: an error whose data is absent or valid is passed on untouched -/
-theorem keeps_encodable (n : Int) (v : Bool) : Funcs.dropErrorData n v = (n != 0 && !v) := rfl
+theorem keeps_encodable (n : Int) (v : Bool) : Funcs.dropErrorData n v = (n != 0 && !v) := by
+  unfold Funcs.dropErrorData
+  by_cases h : n = 0 <;> cases v <;> simp [h, bne]
 
 end Jrpc.Tie.C01
